@@ -27,10 +27,10 @@ verus! {
 //@expect loc_pivots.update_from(&pivots.read().unwrap()); w.init(i, &self.str, &loc_pivots); self.find_cycle_free_pivots_in(&pivots, &mut loc_pivots, &mut w);
 //@expect self.pivots = pivots.into_inner().unwrap();
 //@expect if #[cfg(feature = "multithread")] { self.find_cycle_free_pivots_m(); } else { self.find_cycle_free_pivots_s(); }
-// remain_rows, occupied_cols
+// remain_rows, PivotData::iter
 //@expect let piv_rows: AHashSet<_> = self.pivots.iter().map(|(i, _)| i).collect();
 //@expect (0 .. m).filter(|&i| !piv_rows.contains(&i) && !self.str.is_empty_row(i) ).sorted_by(|&i1, &i2| self.str.cmp_rows(i1, i2) )
-//@expect self.pivots.iter().fold(AHashSet::new(), |mut res, (i, _)| { for &j in self.str.cols_in(i) { res.insert(j); } res })
+//@expect self.indices.iter().map(|&j| { let i = self.data[j].unwrap(); (i, j) })
 // MatrixStr::new
 //@expect for (i, j, r) in a.iter() { if r.is_zero() { continue } let (i, j) = t(i, j); entries[i].push(j);
 //@expect if pivot_cond.is_cand(r) { cands[i].insert(j); }
@@ -242,6 +242,19 @@ impl SpMat {
 }
 
 // ---------------------------------------------------------------- PivotData
+pub struct PivIter { pub es: Ghost<Seq<(usize, usize)>>, pub pos: Ghost<int> }
+pub open spec fn piv_iter_ok(p: PivotData, es: Seq<(usize, usize)>) -> bool {
+    es.len() == p.indices@.len() && forall|k: int| 0 <= k < es.len() ==> (#[trigger] es[k]).1 == p.indices@[k] && es[k].0 as int == prow(p, p.indices@[k] as int)
+}
+impl PivIter {
+    pub fn into_iter(self) -> (r: Self) ensures r == self { self }
+    #[verifier::external_body] pub fn next(&mut self) -> (r: Option<(usize, usize)>)
+        requires 0 <= old(self).pos@ <= old(self).es@.len()
+        ensures final(self).es@ == old(self).es@,
+            old(self).pos@ < old(self).es@.len() ==> (final(self).pos@ == old(self).pos@ + 1 && r == Some(old(self).es@[old(self).pos@])),
+            old(self).pos@ >= old(self).es@.len() ==> (final(self).pos@ == old(self).pos@ && r.is_none()),
+    { unimplemented!() }
+}
 impl PivotData {
     fn new(a: &SpMat, piv_type: PivotType) -> (r: PivotData)
         ensures r.data@.len() == (if piv_type == PivotType::Rows { a.sh@.1 } else { a.sh@.0 }), r.indices@.len() == 0, forall|j: int| !has_col(r, j),
@@ -267,6 +280,11 @@ impl PivotData {
         requires k < self.indices@.len(), has_col(*self, self.indices@[k as int] as int),
         ensures r.1 == self.indices@[k as int], r.0 == prow(*self, r.1 as int),
     //@body impl/PivotData/pivot_at
+    /// ASSUMED (`indices.iter().map(|&j| (data[j].unwrap(), j))`, a lazy adaptor): the pivots (row, column) in insertion order
+    #[verifier::external_body] fn iter(&self) -> (r: PivIter)
+        requires piv_rep(*self),
+        ensures r.pos@ == 0, piv_iter_ok(*self, r.es@),
+    { unimplemented!() }
     /// catch up with a later state of the table: afterwards the two agree
     fn update_from(&mut self, from: &Self)
         requires piv_rep(*old(self)), piv_rep(*from), extends(*from, *old(self)),
@@ -1081,11 +1099,40 @@ impl PivotFinder {
     //@| lemma_rows_step(s0, p1, self.pivots, __it0.es@, pos1, j as int);
     //@| assert(extends(self.pivots, p0));
 
-    /// ASSUMED (fold over PivotData::iter with an AHashSet accumulator): every column occurring in a pivot row
-    #[verifier::external_body] fn occupied_cols(&self) -> (r: ASet)
+    /// every column occurring in a pivot row
+    fn occupied_cols(&self) -> (r: ASet)
         requires str_wf(self.str), piv_wf(self.str, self.pivots),
         ensures occ_ok(self.str, self.pivots, r.v()),
-    { unimplemented!() }
+    //@body impl/PivotFinder/occupied_cols for_iter=1 loops=2 subst=AHashSet:ASet
+    //@+ loop 0 header
+    //@| self.pivots.iter().fold(AHashSet::new(),
+    //@+ loop 1 header
+    //@| for &j in self.str.cols_in(i)
+    //@+ loop 0
+    //@| invariant str_wf(self.str), piv_wf(self.str, self.pivots), piv_iter_ok(self.pivots, __it0.es@), 0 <= __it0.pos@ <= __it0.es@.len(),
+    //@|     forall|k: int, e: int| 0 <= k < __it0.pos@ && 0 <= e < pent(self.str, self.pivots, self.pivots.indices@[k] as int).len() ==> __acc0.v().contains(#[trigger] pent(self.str, self.pivots, self.pivots.indices@[k] as int)[e]),
+    //@| ensures __it0.pos@ == __it0.es@.len(),
+    //@| decreases __it0.es@.len() - __it0.pos@,
+    //@+ loop 1
+    //@| invariant str_wf(self.str), i < nrows(self.str), __it1.es@ == ent(self.str, i as int), 0 <= __it1.pos@ <= __it1.es@.len(),
+    //@|     forall|c: usize| acc_in.contains(c) ==> res.v().contains(c),
+    //@|     forall|e: int| 0 <= e < __it1.pos@ ==> res.v().contains(#[trigger] ent(self.str, i as int)[e]),
+    //@| ensures __it1.pos@ == __it1.es@.len(),
+    //@| decreases __it1.es@.len() - __it1.pos@,
+    //@+ loop 1 before
+    //@| acc_in = res.v();
+    //@| assert(has_col(self.pivots, self.pivots.indices@[__it0.pos@ - 1] as int));
+    //@+ pre-raw
+    //@| let ghost mut acc_in: Set<usize> = Set::empty();
+    //@+ loop 0 end
+    //@| assert forall|k: int, e: int| 0 <= k < __it0.pos@ && 0 <= e < pent(self.str, self.pivots, self.pivots.indices@[k] as int).len() implies __acc0.v().contains(#[trigger] pent(self.str, self.pivots, self.pivots.indices@[k] as int)[e]) by {
+    //@|     if k < __it0.pos@ - 1 { assert(acc_in.contains(pent(self.str, self.pivots, self.pivots.indices@[k] as int)[e])); }
+    //@| }
+    //@+ loop 0 after
+    //@| assert forall|c0: int, e: int| has_col(self.pivots, c0) && 0 <= e < pent(self.str, self.pivots, c0).len() implies __acc0.v().contains(#[trigger] pent(self.str, self.pivots, c0)[e]) by {
+    //@|     let k = choose|k: int| 0 <= k < self.pivots.indices@.len() && #[trigger] self.pivots.indices@[k] == c0;
+    //@|     assert(__acc0.v().contains(pent(self.str, self.pivots, self.pivots.indices@[k] as int)[e]));
+    //@| }
 
     /// phase 2: a candidate column that occurs in no pivot row
     fn find_fl_col_pivots(&mut self)
